@@ -119,6 +119,12 @@ pub struct Script {
     /// drop all roots / weaks in this (selector) order at the end and apply the
     /// final leak accounting (C04)
     pub cleanup: Vec<u16>,
+    /// C09: the heap layout of this run, when it differs from the one derived
+    /// from `layout_seed` (every other use of `layout_seed` - constructor
+    /// choice, payload Clone behaviour, log level, ... - is part of the call
+    /// sequence and stays the same across the layouts of one case)
+    #[serde(default, skip_serializing_if = "Option::is_none")]
+    pub arena_seed: Option<u64>,
 }
 
 impl Script {
